@@ -23,6 +23,9 @@ import string as _string
 import textwrap as _textwrap
 
 
+COVERAGE = None     # set of (module, function, line) evaluated; filled when tools/coverage.py asks for it
+
+
 class Unsupported(Exception):
     pass
 
@@ -1932,6 +1935,8 @@ class Interp:
             if a == "close":
                 return ("builtin", "noop")
             raise Unsupported(f"getattr generator.{a}")
+        if isinstance(o, FakeFile) and a in ("name", "closed", "mode"):
+            return {"name": o.name, "closed": False, "mode": "w"}[a]
         if isinstance(o, (str, list, set, dict, tuple, frozenset, collections.defaultdict, int, bytes, FakeFile)):
             if type(o) not in (str, list, set, dict, tuple, frozenset, int, bytes, bool, FakeFile, collections.defaultdict):
                 try:
@@ -2481,6 +2486,8 @@ class Interp:
 
     def call_func(self, f, args, kw):
         node = f.node
+        if COVERAGE is not None:
+            COVERAGE.add((f.mod.name, getattr(node, "name", "<lambda>"), node.lineno))
         a = node.args
         env = {"__parent__": f.closure}
         if f.owner is not None and f.self_obj is not None:
